@@ -228,6 +228,14 @@ func judgeC08(c *core.Case, cfg *core.Config) core.Verdict {
 				n := atomic.AddInt64(&c08FreshPat, 1)
 				src = "(" + src + ") == nil or S matches \"^zq{" + fmt.Sprint(n%990+2) + "}" + fmt.Sprint(n) + "\""
 			}
+			if concurrent {
+				// besides: constant patterns this process has never compiled (whatever is memoised per pattern is
+				// filled - and, once full, emptied - while the other compilations look their patterns up)
+				for j := 0; j < 3; j++ {
+					n := atomic.AddInt64(&c08FreshPat, 1)
+					_, _ = compile("S matches \"^zr{"+fmt.Sprint(n%990+2)+"}"+fmt.Sprint(n)+"\" or S2 matches \"b$\"", o...)
+				}
+			}
 			p, err := compile(src, o...)
 			if err != nil {
 				return c08Result{err: "compile: " + err.Error()}
